@@ -734,7 +734,13 @@ class Request(interfaces.Request, BaseUnicastRequest):
             return
 
         if first_event.is_last:
-            self.observation.error(error.NotObservable())
+            if first_event.exception is not None:
+                # The request failed before any response was there to tell
+                # whether the resource is observable: the observation ends
+                # with what ended the request
+                self.observation.error(first_event.exception)
+            else:
+                self.observation.error(error.NotObservable())
             return
 
         if first_event.message.opt.observe is None:
